@@ -44,7 +44,7 @@ CHECKS = {
  "C17": dict(
    engine="histsim",
    technique="deterministic simulation: seeded histories phase -> haplotag (-> re-haplotag) -> (partial) unphase -> haplotagphase over generated worlds, reference = the phasing that tagged the reads",
-   level_text="Seeded exploration of the four-subcommand pipeline (each step a process) on generated diploid worlds with error-free reads, linked reads, uncalled genotypes, pre-tagged BAMs, partially phased and harness-rendered tagging VCFs with arbitrary set ids; every variant haplotagphase phases is compared with the phased VCF that tagged the reads (orientation and phase set; set must exist in it; orientation must match the reads), already phased variants must be identical; proviso (reads or read clouds spanning two phase sets) computed from the world; plus a regression corpus.",
+   level_text="Seeded exploration of the four-subcommand pipeline (each step a process) on generated diploid worlds with error-free reads, linked reads, uncalled genotypes, pre-tagged BAMs, read names reused across chromosomes, partially phased and harness-rendered tagging VCFs with arbitrary set ids; every variant haplotagphase phases is compared with the phased VCF that tagged the reads (orientation and phase set; set must exist in it; orientation must match the reads), already phased variants must be identical; proviso (reads or read clouds spanning two phase sets) computed from the world; plus a regression corpus.",
    level_note="Trusts the world generator (reads are exact copies of the true haplotypes), pysam, and the decoder VcfReader(phases=True) as observation point.",
    design_ref="DESIGN.md §4 C17"),
  "C16": dict(
